@@ -41,7 +41,11 @@ type Run struct {
 	Level string
 	Rule  string
 
+	// ChildResult is set in child processes: where the run's state goes for the parent to merge
+	ChildResult string
+
 	mu           sync.Mutex
+	finishing    bool
 	evals        int64
 	distinct     map[uint64]struct{} // 64-bit FNV-1a of the case keys (millions of keys in thorough runs)
 	samples      []any
@@ -200,7 +204,12 @@ func (r *Run) Incomplete(msg string) {
 // Violate records a violation unless an open known finding lists its class.
 func (r *Run) Violate(v Violation) {
 	r.mu.Lock()
-	defer r.mu.Unlock()
+	unlocked := false
+	defer func() {
+		if !unlocked {
+			r.mu.Unlock()
+		}
+	}()
 	for _, f := range r.findings {
 		if f.Status == "open" && f.Property == r.Prop && f.Class != "" && f.Class == v.Class {
 			r.known[f.ID]++
@@ -219,7 +228,22 @@ func (r *Run) Violate(v Violation) {
 	if len(r.violations) < 5 {
 		r.violations = append(r.violations, v)
 	}
+	if r.nviol == maxViolations && !r.finishing {
+		// nothing is learned from the thousandth violation, and a tree this broken can make a workload
+		// misbehave in ways it was never sized for: report what there is and stop
+		r.finishing = true
+		unlocked = true
+		r.mu.Unlock()
+		if r.ChildResult != "" {
+			_ = r.DumpTo(r.ChildResult)
+			os.Exit(0)
+		}
+		code := r.Finish()
+		os.Exit(code)
+	}
 }
+
+const maxViolations = 1000
 
 // Violations returns the number of (unlisted) violations so far.
 func (r *Run) Violations() int { r.mu.Lock(); defer r.mu.Unlock(); return r.nviol }
